@@ -74,20 +74,25 @@ def dec(v):
     return v
 
 
+def _fr(x):
+    """repr of a float for snapshots; the two zeros are equal values (-0.0 == 0.0) and compare so."""
+    return repr(x + 0.0) if x == 0 else repr(x)
+
+
 def freeze(o, depth=0):
     """Canonical deep snapshot (hashable, comparable with ==)."""
     # library objects are observed through their public API, so that a hidden (correctly
     # invalidated) cache attribute is not mistaken for a change of the object's value
     if isinstance(o, Angle):
-        return ("Angle", repr(o()), repr(o.get_tolerance()))
+        return ("Angle", _fr(o()), repr(o.get_tolerance()))
     if isinstance(o, Epoch):
-        return ("Epoch", repr(o.jde()))
+        return ("Epoch", _fr(o.jde()))
     if isinstance(o, Interpolation):
         return ("Interpolation", repr(o), repr(o.get_tolerance()))
     if isinstance(o, (CurveFitting, Earth, Ellipsoid)):
         return (type(o).__name__, repr(o))
     if isinstance(o, float):
-        return ("f", repr(o))
+        return ("f", _fr(o))
     if isinstance(o, (bool, int, str, type(None), complex)):
         return (type(o).__name__, o)
     if isinstance(o, (list, tuple)):
